@@ -44,14 +44,18 @@ Definition cigar := list (cop * nat).
      r_pair_keep_mate  create_read_from_group: false = the code as it was (drops every alignment whose strand differs
                        from the last primary one, i.e. one mate of every FR pair), true = the code now (the strand
                        filter applies to supplementary alignments only) *)
+(*   r_ins_flank_at_ins  like r_ins_left_flank, but for an aligned block that BEGINS with an insertion operation (read
+                       starting inside an insertion, or N followed by I): false = the code (queues the insertion variant
+                       at that I operation; a partial insertion does not match, the empty REF allele is reported),
+                       true = repaired (skips it).  NOT repaired in /repo yet. *)
 Record rules := mkRules { r_skip_consumed : bool; r_ins_left_flank : bool; r_pair_keep_mate : bool;
-                          r_ins_span : bool; r_distance : bool }.
-Definition original_rules := mkRules false false false false false.
-Definition current_rules := mkRules true true true true true.
-Definition repaired_rules := mkRules true true true true true.
+                          r_ins_span : bool; r_distance : bool; r_ins_flank_at_ins : bool }.
+Definition original_rules := mkRules false false false false false false.
+Definition current_rules := mkRules true true true true true false.
+Definition repaired_rules := mkRules true true true true true true.
 (* all rules repaired except number k *)
 Definition all_but (k : nat) : rules :=
-  mkRules (negb (k =? 0)) (negb (k =? 1)) (negb (k =? 2)) (negb (k =? 3)) (negb (k =? 4)).
+  mkRules (negb (k =? 0)) (negb (k =? 1)) (negb (k =? 2)) (negb (k =? 3)) (negb (k =? 4)) (negb (k =? 5)).
 
 Record variant := mkVar { vpos : nat; vref : list Z; valt : list Z }.
 
@@ -403,6 +407,7 @@ Fixpoint enqueue (skip_at_start : bool) (op : cop) (variants : list variant) (vp
             let ref_len := length (vref v) in
             match op with
             | OpI => if 0 <? ref_len then ([], vp)
+                     else if skip_at_start && (vpos v =? rp) then enqueue skip_at_start op variants r rp qp ref_end
                      else let (a, b) := enqueue skip_at_start op variants r rp qp ref_end in
                           (reset e (qp + vpos v - rp) :: a, b)
             | OpD => if ref_len =? 0 then enqueue skip_at_start op variants r rp qp ref_end
@@ -438,7 +443,8 @@ Fixpoint detect_loop (R : rules) (cig : cigar) (query quals : list Z) (variants 
       | OpS => detect_loop R cig' query quals variants vp queue flank rp (qp + len)
       | OpH | OpP => detect_loop R cig' query quals variants vp queue flank rp qp
       | _ =>
-          let (newq, vp') := enqueue (r_ins_left_flank R && negb flank) op variants vp rp qp
+          let (newq, vp') := enqueue ((match op with OpI => r_ins_flank_at_ins R | _ => r_ins_left_flank R end)
+                                      && negb flank) op variants vp rp qp
                                       (rp + match op with OpI => if r_ins_span R then 1 else len | _ => len end) in
           let queue1 := map (handle op query quals variants qp len) (queue ++ newq) in
           let rp' := match op with OpI => rp | _ => rp + len end in
@@ -586,17 +592,22 @@ Definition read_set_default (R : rules) (reference : option (list Z)) (threshold
 (* ------------------------------------------------------------------------------------------------
    specification side, evaluated on the implementation's own output *)
 
-(* maximal N-free aligned reference intervals [a, b) of an alignment *)
-Fixpoint blocks (c : cigar) (cur_start rp : nat) : list (nat * nat) :=
+(* maximal N-free aligned reference intervals [a, b) of an alignment.  A block that ENDS with an insertion operation
+   is extended by one position: its inserted bases stand directly in front of reference position b, so a variant
+   located at b (a right-anchored insertion record) is touched by the read (cf. the exception clause of
+   iterate_cigar_sound: a yield at an insertion that ends the alignment). *)
+Fixpoint blocks_ins (c : cigar) (cur_start rp : nat) (ins_last : bool) : list (nat * nat) :=
   match c with
-  | [] => [(cur_start, rp)]
+  | [] => [(cur_start, if ins_last then S rp else rp)]
   | (op, len) :: c' =>
       match op with
-      | OpM | OpEQ | OpX | OpD => blocks c' cur_start (rp + len)
-      | OpN => (cur_start, rp) :: blocks c' (rp + len) (rp + len)
-      | _ => blocks c' cur_start rp
+      | OpM | OpEQ | OpX | OpD => blocks_ins c' cur_start (rp + len) false
+      | OpN => (cur_start, if ins_last then S rp else rp) :: blocks_ins c' (rp + len) (rp + len) false
+      | OpI => blocks_ins c' cur_start rp true
+      | _ => blocks_ins c' cur_start rp ins_last
       end
   end.
+Definition blocks (c : cigar) (cur_start rp : nat) : list (nat * nat) := blocks_ins c cur_start rp false.
 
 (* the variant's reference footprint [p, p + max 1 |ref|) meets an aligned interval *)
 Definition overlaps (v : variant) (a : alignment) : bool :=
